@@ -559,12 +559,12 @@ pub fn phases(cfg: &Cfg) -> Vec<Box<dyn Phase>> {
             sub2: build_opt("str::substring(x, i)"),
         }),
         Box::new(LargeArgs {
-            n: cfg.n(6_000, 300_000),
+            n: cfg.n(6_000, 1_500_000),
             trees: call_trees(&names),
             names: names.clone(),
         }),
         Box::new(RandomArgs {
-            n: cfg.n(2_000_000, 20_000_000),
+            n: cfg.n(2_000_000, 100_000_000),
             trees: call_trees(&names),
             names,
         }),
